@@ -63,4 +63,4 @@ LEVEL_NOTE = ("Trusted: Lean kernel; axioms propext/Classical.choice/Quot.sound 
               "the doc comment of ProfitFactor says `1.0` for zero profits and zero losses while code and unit test return None (reported, not a C16 clause). "
               "Additionally tied by translation: the Lean definitions of the kernels calculate_pnl_return (position.rs), WinRate::calculate (metric/win_rate.rs), ProfitFactor::calculate (metric/profit_factor.rs) are regenerated from the current source on every run (tools/rust2lean.py) and proved equal to the model's (kernels_agree_with_source), so a change of such a kernel breaks a proof obligation directly; the translator and its Decimal prelude are trusted for that tie. "
               "The PnLReturns / TearSheetGenerator state machine (PnLReturns::update, TearSheetGenerator::{init, update_from_position}, derived Defaults, Timed::new) is likewise regenerated by tools/rust2lean_sm.py (Generated/Machines2.lean) and proved to commute with this model's step functions through the field projections, and to equal the complete generator model of sub-check C16M field by field (state_machine_agrees_with_source; generate and algorithm::sqrt are not translated).")
-SUBCHECKS = ["C16M"]
+SUBCHECKS = ["C16M", "C16K"]
